@@ -60,7 +60,7 @@ func execHist(c *HistCase, o *Outcome, withIndexes bool) {
 			o.Fail("ill-formed:"+defectClass(d), "%s violated after %d steps (last: "+after+"): %s\nhistory:\n  %s\ntext now: %s", prop, len(hist)-1, d, strings.Join(hist, "\n  "), safeText(st.t))
 			return false
 		}
-		if d == "" && withIndexes {
+		if withIndexes {
 			var d4 string
 			if !guard(o, "index-check", func() { d4 = CheckIndexes(st.t) }) {
 				return false
